@@ -40,9 +40,9 @@ def cases(rng, tier):
 class Writers:
     no_model = True
 
-    def __init__(self, sid, g, m, sz, mode):
-        self.sid, self.g, self.m, self.sz, self.mode = sid, g, m, sz, mode
-        self.tag = "writers.%d x %d x %d.%s" % (g, m, sz, mode)
+    def __init__(self, sid, g, m, sz, mode, hold=3):
+        self.sid, self.g, self.m, self.sz, self.mode, self.hold = sid, g, m, sz, mode, hold
+        self.tag = "writers.%d x %d x %d.%s%s" % (g, m, sz, mode, ".hold0" if hold == 0 else "")
         self.remote_id = 0x0A000002
 
     def scenario(self):
@@ -58,8 +58,18 @@ class Writers:
                    ["sleep", 30], ["write", "dead00000000", 0], ["write", "beef00000000", 1], ["sleep", 60]]
         elif self.mode == "in-callbacks":
             st += [["send", "c1", S.frame(S.UPDATE, bytes(4)).hex(), 0], ["send", "c1", S.frame(S.UPDATE, bytes(5)).hex(), 0], ["sleep", 1100]]
-        return {"id": self.sid, "local_as": 65001, "remote_as": 65000, "local_id": 0x0A000001, "hold": 3, "passive": True,
-                "idle_hold_ms": 3000, "connect_retry_ms": 3000, "caps": [], "on_open": None, "handler": [],
+        elif self.mode == "in-onclose":
+            # the session is ended (by the remote's Cease, or by our own handler's NOTIFICATION); the plugin uses the
+            # writer it kept from inside OnClose: the call must fail and nothing may follow on the wire
+            if self.g:
+                st += [["send", "c1", S.frame(S.UPDATE, bytes(4)).hex(), 0]]
+            else:
+                st += [["send", "c1", S.frame(S.NOTIF, S.notif_body(6, 2)).hex(), 0]]
+            st += [["recv_eof", "c1", 1500], ["sleep", 50]]
+        return {"id": self.sid, "local_as": 65001, "remote_as": 65000, "local_id": 0x0A000001, "hold": self.hold, "passive": True,
+                "onclose_write": "cc00000000" if self.mode == "in-onclose" else "",
+                "handler": [[6, 4, ""]] if (self.mode == "in-onclose" and self.g) else [],
+                "idle_hold_ms": 3000, "connect_retry_ms": 3000, "caps": [], "on_open": None,
                 "est_writes": ["aa00000000", "ab00000000"] if self.mode == "in-callbacks" else [],
                 "handler_writes": {"0": "ac00000000", "1": "ad00000000"} if self.mode == "in-callbacks" else {},
                 "steps": st}
@@ -73,7 +83,7 @@ class Writers:
         for c in r["conns"]:
             if c.get("garbage"):
                 bad.append("conn %s: not whole well-formed messages: %s..." % (c["name"], c["garbage"][:60]))
-        ok_writes = [w for w in r["writes"] if w["err"] == "" and w["name"].startswith("w")]
+        ok_writes = [w for w in (r["writes"] or []) if w["err"] == "" and w["name"].startswith("w")]
         c1 = conns["c1"]
         seen = {}
         for m in c1["msgs"] or []:
@@ -98,8 +108,8 @@ class Writers:
             if self.mode == "teardown" and got > want:
                 bad.append("%d UPDATEs arrived for %d successful writes" % (got, want))
         if self.mode == "steady":
-            if len(r["writes"]) != self.g * self.m:
-                bad.append("only %d of %d WriteUpdate calls returned (deadlock?)" % (len(r["writes"]), self.g * self.m))
+            if len((r["writes"] or [])) != self.g * self.m:
+                bad.append("only %d of %d WriteUpdate calls returned (deadlock?)" % (len((r["writes"] or [])), self.g * self.m))
         if self.mode == "teardown" and "c2" in conns:
             c2 = conns["c2"]
             bodies = [m["b"] for m in c2["msgs"] or [] if m["t"] == 2]
@@ -108,17 +118,25 @@ class Writers:
             tagged = [b for b in bodies if b not in ("beef00000000",)]
             if tagged:
                 bad.append("UPDATEs written through the old session's writer reached the new connection: %s" % tagged[:2])
-            old = [w for w in r["writes"] if w["name"] == "write"]
+            old = [w for w in (r["writes"] or []) if w["name"] == "write"]
             if old and old[0]["err"] == "":
                 bad.append("WriteUpdate on the writer of an ended session returned nil")
             if "beef00000000" not in bodies:
                 bad.append("WriteUpdate on the new session's writer did not reach the wire")
+        if self.mode == "in-onclose":
+            ow = [w for w in (r["writes"] or []) if w["name"] == "onclose"]
+            if not ow:
+                bad.append("WriteUpdate from inside OnClose did not return (or OnClose was not delivered)")
+            elif ow[0]["err"] == "":
+                bad.append("WriteUpdate on the writer of the ended session returned nil inside OnClose")
+            if any(m["t"] == 2 and m["b"] == "cc00000000" for m in c1["msgs"] or []):
+                bad.append("an UPDATE written after the session had ended reached the wire")
         if self.mode == "in-callbacks":
             bodies = [m["b"] for m in c1["msgs"] or [] if m["t"] == 2]
             for want in ("aa00000000", "ab00000000", "ac00000000", "ad00000000"):
                 if bodies.count(want) != 1:
                     bad.append("WriteUpdate from inside a callback: body %s appears %d times" % (want, bodies.count(want)))
-            if len([w for w in r["writes"] if w["name"] in ("est", "handler")]) != 4:
+            if len([w for w in (r["writes"] or []) if w["name"] in ("est", "handler")]) != 4:
                 bad.append("WriteUpdate inside OnEstablished/handler did not return (deadlock)")
         return bad
 
@@ -136,6 +154,14 @@ def items(rng, tier):
             sid += 1
         out.append(Writers(sid, 0, 0, 0, "in-callbacks"))
         sid += 1
+        # negotiated hold time 0 (no keep-alive timer to reset) is a mode of its own for every writer path
+        out.append(Writers(sid, 4, 40, 60, "steady", hold=0)); sid += 1
+        out.append(Writers(sid, 0, 0, 0, "in-callbacks", hold=0)); sid += 1
+        out.append(Writers(sid, 4, 200, 50, "teardown", hold=0)); sid += 1
+        # the writer used from inside OnClose (session ended by the remote / by our handler's NOTIFICATION)
+        for g in (0, 1):
+            for hold in (3, 0):
+                out.append(Writers(sid, g, 0, 0, "in-onclose", hold=hold)); sid += 1
     return out
 
 
